@@ -48,12 +48,14 @@ static void hexs(const char *s)
 }
 
 static void drop_held(void);
+static void drop_prev_utt(void);
 
 static void cmd_newdec(char **w, int n)
 {
     config_t *cfg;
     int i, have_hmm = 0;
     drop_held();
+    drop_prev_utt();
     if (dec) { decoder_free(dec); dec = NULL; }
     cfg = config_init(NULL);
     for (i = 1; i < n; i++) {
@@ -85,7 +87,11 @@ static void cmd_audio(const char *path)
  * recycled: a later request at the same frame count (no new audio searched in between — e.g. on the other side
  * of decoder_end_utt when that flushed nothing) must return this very object */
 static lattice_t *held_dag;
+/* the last lattice of the PREVIOUS utterance on this decoder (retained): a request of the current utterance
+ * must never hand it out again */
+static lattice_t *prev_utt_dag;
 static int held_frames;
+static void drop_prev_utt(void) { if (prev_utt_dag) { lattice_free(prev_utt_dag); prev_utt_dag = NULL; } }
 static void drop_held(void) { if (held_dag) { lattice_free(held_dag); held_dag = NULL; } }
 
 /* the whole remaining audio (up to n samples) in ONE call with full_utt = TRUE: everything is searched inside
@@ -270,6 +276,8 @@ static void cmd_lat(const char *tag, int k, int bp, char *ops)
     /* keep the first object alive so that a cache miss shows up as "not the same object" rather than as a
      * use of the freed lattice */
     lattice_retain(dag);
+    if (prev_utt_dag)
+        printf("KU stale_previous_utterance=%d prev_frames=%d\n", prev_utt_dag == dag ? 1 : 0, (int)prev_utt_dag->n_frames);
     if (held_dag)
         printf("K held_frames=%d now_frames=%d same_as_held=%d\n", held_frames, (int)dag->n_frames, held_dag == dag ? 1 : 0);
     drop_held();
@@ -479,7 +487,11 @@ int main(int argc, char **argv)
             else printf("fsgfile %d\n", decoder_set_fsg(dec, fsg));
         }
         else if (!strcmp(w[0], "audio") && n == 2) cmd_audio(w[1]);
-        else if (!strcmp(w[0], "start")) { drop_held(); audio_pos = 0; printf("start %d\n", decoder_start_utt(dec)); }
+        else if (!strcmp(w[0], "start")) {
+            /* keep the last lattice of the utterance that ends here (retained, so its address stays taken) */
+            if (held_dag) { if (prev_utt_dag) lattice_free(prev_utt_dag); prev_utt_dag = held_dag; held_dag = NULL; }
+            audio_pos = 0; printf("start %d\n", decoder_start_utt(dec));
+        }
         else if (!strcmp(w[0], "procfull") && n == 2) cmd_procfull(atoi(w[1]));
         else if (!strcmp(w[0], "proc") && n == 2) cmd_proc(atoi(w[1]));
         else if (!strcmp(w[0], "end")) {
@@ -493,6 +505,7 @@ int main(int argc, char **argv)
         fflush(stdout);
     }
     drop_held();
+    if (prev_utt_dag) { lattice_free(prev_utt_dag); prev_utt_dag = NULL; }
     if (dec) decoder_free(dec);
     free(audio);
     return 0;
